@@ -173,3 +173,35 @@ def uw2(P, C):
     C.ob("UW-2", "convolve", "strides-recomputed", cp == ["copy(strides.get(),(strides.get()+this->ndim),this->strides)"], f.where(),
          "strides are replaced by the ones computed from the new axis lengths: %s" % cp)
     return post
+
+
+def uw4(P, C):
+    C.rule("UW-4", "the transfer matrix is computed for every (new spline, old spline) pair — a perfect loop nest over naxes'[dim] x naxes[dim] "
+           "whose body assigns trafo[i*old + j] = norm * convoluted_blossom(&knots[dim][j], k+1, kernel, n, rho[i], &rho[i+1], k+q-1) — and "
+           "applied to every slice by a perfect 4-level nest; no entry is skipped", floor=2)
+    f = [g for g in P.fns("convolve") if g.cls == ts.CLS and g.unit == "driver"][0]
+    fill = [i for i in f.walk() if ts.assign_parts(f, i) and f.render(ts.assign_parts(f, i)[0]).startswith("trafo[")]
+    ok = False
+    det = "%d stores into the transfer matrix" % len(fill)
+    if len(fill) == 1:
+        a = fill[0]
+        loops = [x for x in f.ancestors(a) if f.k(x) == "ForStmt"]
+        conds = [x for x in f.ancestors(a) if f.k(x) == "IfStmt"]
+        txt = f.alpha(loops[-1])[0].replace(" ", "") if loops else ""
+        want = ("ForStmt(uint32_tv0=0,(v0<v1[$0]),(v0++),CompoundStmt(ForStmt(uint32_tv2=0,(v2<naxes[$0]),(v2++),CompoundStmt((v3[((v0*naxes[$0])+v2)]="
+                "(v4*convoluted_blossom((&knots[$0][v2]),(v5+1),$1,$2,v6[v0],(&v6[(v0+1)]),((v5+v7)-1))))))))")
+        ok = len(loops) == 2 and not conds and txt == want
+        det = "fill nest %s" % ("matches" if txt == want else txt[:260])
+    C.ob("UW-4", "convolve", "transfer-matrix-complete", ok, f.loc(fill[0]) if fill else f.where(), det)
+    app = [i for i in f.walk() if f.k(i) == "CompoundAssignOperator" and f.nodes[i]["op"] == "+=" and f.render(f.nodes[i]["ch"][0]).startswith("coefficients[")]
+    ok2 = False
+    det2 = "%d accumulate statements" % len(app)
+    if len(app) == 1:
+        loops = [x for x in f.ancestors(app[0]) if f.k(x) == "ForStmt"]
+        conds = [x for x in f.ancestors(app[0]) if f.k(x) == "IfStmt"]
+        txt = f.alpha(loops[-1])[0].replace(" ", "") if loops else ""
+        want = ("ForStmt(uint32_tv0=0,(v0<v1),(v0++),ForStmt(uint32_tv2=0,(v2<v3[$0]),(v2++),ForStmt(uint32_tv4=0,(v4<naxes[$0]),(v4++),"
+                "ForStmt(uint32_tv5=0,(v5<v6),(v5++),(v7[((((v0*v6)*v3[$0])+(v2*v6))+v5)]+=(v8[((v2*naxes[$0])+v4)]*coefficients[((((v0*v6)*naxes[$0])+(v4*v6))+v5)]))))))")
+        ok2 = len(loops) == 4 and not conds and txt == want
+        det2 = "apply nest %s" % ("matches" if txt == want else txt[:300])
+    C.ob("UW-4", "convolve", "applied-to-every-slice", ok2, f.loc(app[0]) if app else f.where(), det2)
